@@ -548,10 +548,13 @@ func FormatRun(prepDir, headersPath, namesPath, recordPath string, seed int64, t
 
 	// ---------------------------------------------------------------- part C: backend names and objects
 	for _, mode := range []string{"zstd", "uncompressed"} {
-		for _, prefix := range []string{"", "p", "p/q"} {
+		for _, prefix := range []string{"", "p", "p/q", "p/", "a//b", "./a"} {
 			for _, backend := range []string{"http", "s3", "grpc", "azblob"} {
 				if backend == "grpc" && prefix != "" {
 					continue // a gRPC backend has no prefix
+				}
+				if backend == "http" && (strings.Contains(prefix, "//") || strings.HasPrefix(prefix, ".") || strings.HasSuffix(prefix, "/")) {
+					continue // an HTTP backend takes a base URL, not a key prefix
 				}
 				n, e := backendNames(rows, backend, mode, prefix, rng, bad)
 				if e != nil {
